@@ -10,11 +10,19 @@ subprocess.run(['git', '-C', '/repo', 'status', '--short'], check=True)
 r = subprocess.run(['git', '-C', '/repo', 'apply', patch])
 if r.returncode != 0:
     sys.exit('patch does not apply')
+import shutil
+saved = {}
+for c in checks:
+    ev = f'/verif/evidence/{c}.json'
+    if os.path.exists(ev):
+        saved[c] = open(ev).read()
 try:
     for c in checks:
         p = subprocess.run(['/verif/check', c, '--tier', 'quick'], capture_output=True, text=True, env={**os.environ, 'VERIF_SEED': os.environ.get('VERIF_SEED', '12345')})
         viol = [l for l in p.stdout.splitlines() if l.startswith('VIOLATION')]
         print(f"{os.path.basename(seed)} vs {c}: {'DETECTED' if p.returncode == 1 and viol else 'MISSED'} exit={p.returncode} {viol[:2]} {p.stdout.splitlines()[-1] if p.stdout else ''}")
 finally:
+    for c, txt in saved.items():
+        open(f'/verif/evidence/{c}.json', 'w').write(txt)
     subprocess.run(['git', '-C', '/repo', 'checkout', '--', '.'])
     subprocess.run(['git', '-C', '/repo', 'status', '--short'])
